@@ -100,6 +100,33 @@ def run_cell(mod, prop, cell, seed, tier, known):
             budget = max(0, n_examples - stats.evaluations)
             if budget < 5:
                 break
+        except hypothesis.errors.Flaky:
+            # The verdict of one case changed between two evaluations (seen
+            # when GJK hands EPA uninitialised simplex rows). Re-evaluate the
+            # failing case: a failure that can be reproduced is reported as
+            # usual, one that cannot is counted and the search goes on with
+            # the next attempt seed - it is neither a violation (no replay
+            # would show it) nor a harness error.
+            reproduced = None
+            if state["last_fail"] is not None:
+                case = state["last_fail"][0]
+                for _ in range(3):
+                    fails, _info = mod.check_case(case, cell)
+                    unk = [f for f in fails if f["bucket"] not in muted and
+                           not (known and mod.match_known(f, case, known) is not None)]
+                    if unk:
+                        reproduced = unk[0]
+                        break
+            if reproduced is not None:
+                path = write_replay(prop, cell, case, reproduced)
+                violations.append({"bucket": reproduced["bucket"], "msg": reproduced.get("msg", ""),
+                                   "replay": path})
+                muted.add(reproduced["bucket"])
+            else:
+                stats.extra["flaky_unreproduced"] = stats.extra.get("flaky_unreproduced", 0) + 1
+            budget = max(0, n_examples - stats.evaluations)
+            if budget < 5:
+                break
         except hypothesis.errors.Unsatisfiable as e:
             harness_error = "Unsatisfiable: %s" % e
             break
@@ -189,12 +216,35 @@ def run_fuzz(prop, cell, seed):
             "harness_error": harness_error, "wall_s": time.time() - t0, "libfuzzer": cov}
 
 
+def preimport():
+    """Import every module of the library and of the harness before the first
+    cell. Hypothesis (>= 6.13x) seeds its float / integer generation with the
+    numeric constants it finds in the source of all *local* modules loaded so
+    far, so lazily imported modules made the cases of a cell depend on which
+    cells the same worker had run before. With everything loaded up front a
+    run is a function of the code and VERIF_SEED only."""
+    import pkgutil
+    import distance3d
+    import vp.props
+    import vp.ref
+    import vp.gen
+    for pkg in (distance3d, vp.props, vp.ref, vp.gen):
+        for m in pkgutil.walk_packages(pkg.__path__, pkg.__name__ + "."):
+            if ".test" in m.name or m.name.endswith(".fuzz"):
+                continue
+            try:
+                importlib.import_module(m.name)
+            except Exception:       # optional dependencies of the library
+                pass
+
+
 def main():
     prop, tier, seed = sys.argv[1], sys.argv[2], int(sys.argv[3])
     mod = importlib.import_module("vp.props.%s" % prop.lower())
     known = load_known(prop)
     if hasattr(mod, "worker_init"):
         mod.worker_init(tier)
+    preimport()
     sys.stdout.write("READY\n")
     sys.stdout.flush()
     for line in sys.stdin:
